@@ -85,6 +85,9 @@ def theorem_names(path):
 # modules that state theorems ABOUT a property but sit above its module in the import graph (the abstract specification and
 # its refinement theorem import C03): built and audited together with the property module
 EXTRA_MODULES = {pid: ["CachedProofs.Spec.Refine"] for pid in ("C02", "C03", "C04", "C09")}
+EXTRA_MODULES["C03"] = EXTRA_MODULES["C03"] + ["CachedProofs.LayerB.Entries"]       # C03 / C07 at action granularity
+EXTRA_MODULES["C07"] = ["CachedProofs.LayerB.Entries"]
+EXTRA_MODULES["C16"] = ["CachedProofs.LayerB.StatsTheorems"]                          # C16 at action granularity
 
 
 def proof_check(pid, thorough):
